@@ -9,7 +9,7 @@ import json
 import vkit
 from checks import backend_common as bc
 
-ACTIONS = ["EvAdd", "EvDel", "CloseFd", "ReopenFd", "Wait"]
+ACTIONS = ["EvAdd", "EvDel", "CloseFd", "ReopenFd", "Reinit", "Wait"]
 KNOWN_KEY = "changelist-stale-et"
 # canonical scenario of the open finding; the expectation is the property (union of added events, ET iff requested)
 KNOWN_H = [{"a": "add", "e": 1, "fd": 1, "m": 1, "et": 1, "o": {"r": 0}},
@@ -74,7 +74,7 @@ def run(tier, seed):
                         "predicted_last_wait": hs[len(hs) // 2][-1]["o"]}, limit=6)
             variants = [(0, 0)] if q else [(0, 0), (1, 1), (0, 2)]
             bc.replay_c05(chk, exe, hs, c, label=name, variants=variants)
-    missing = [o for o in ("add", "del", "close", "reopen", "wait", "add:et", "add:closed") if not ops.get(o)]
+    missing = [o for o in ("add", "del", "close", "reopen", "reinit", "wait", "add:et", "add:closed") if not ops.get(o)]
     if missing:
         raise vkit.InfraError("vacuous scenario corpus: ops never generated: %s" % missing)
     chk.cov["op_histogram"] = ops
@@ -100,7 +100,7 @@ def run(tier, seed):
     chk.cov["rule"] = ("per backend (epoll, epoll+changelist, poll, select): TLC decides InterestOK/CountsOK/PollArrayOK/"
                        "ChangelistOK on the bounded state graph; every history of the exhaustive depth and random long "
                        "histories (3 fds incl. one whose file is kept alive by a dup, 3 events, all interest masks, "
-                       "ET/LT, close/reopen) are replayed on the real backend selected with event_config; at every wait "
+                       "ET/LT, close/reopen, event_reinit) are replayed on the real backend selected with event_config; at every wait "
                        "the interest set handed to the kernel (epoll: /proc/self/fdinfo of the epfd inside the wrapped "
                        "epoll_pwait2; poll: pollfd array; select: fd_sets up to nfds) and every return value are compared "
                        "with the specification. distinct = distinct (backend, op sequence); non-trivial = >= 2 "
